@@ -41,7 +41,7 @@ def configs(tier):
     # with all orderings of unequal batch sizes
     for (bt, bx, bb) in ((3, 1, 1), (1, 3, 2), (2, 1, 3)):
         out.append(dict(what="gen_ctor", bt=bt, bx=bx, bb=bb, n=n, x64=False))
-    for gk in ("times", "param", "obs"):
+    for gk in ("times", "param", "obs", "times_rar"):       # times_rar: a generator set up for refinement (sampling probabilities, partly inactive store)
         out.append(dict(what="gen_ctor", kind=gk, n=n, b=3, x64=False))
     return out
 
@@ -76,6 +76,8 @@ def run_gen_ctor(cfg, R):
     else:
         b = cfg["b"]
         g = {"times": lambda: DG.DataGeneratorODE(key, n, 0.0, 1.0, b),
+             "times_rar": lambda: DG.DataGeneratorODE(key, n + 2, 0.0, 1.0, b, nt_start=n,
+                                                      rar_parameters={"start_iter": 0, "update_every": 1, "sample_size_times": 2, "selected_sample_size_times": 1}),
              "param": lambda: DG.DataGeneratorParameter(key, n, b, param_ranges={"nu": (0.0, 1.0)}),
              "obs": lambda: DG.DataGeneratorObservations(key, b, jnp.arange(n * 2, dtype=jnp.float32).reshape(n, 2), jnp.arange(n, dtype=jnp.float32).reshape(n, 1))}[cfg["kind"]]()
         name = f"gen_ctor/{cfg['kind']}/b{b}"
